@@ -119,5 +119,11 @@ RepsOf(v, nr, ar, orr) ==
              maps == {f \in [DOMAIN v.m -> UNION {choices[k] : k \in DOMAIN v.m}] : \A k \in DOMAIN v.m : f[k] \in choices[k]}
          IN {[t |-> "obj", m |-> f, r |-> rp] : f \in maps, rp \in orr}
 
+\* interior pointers: every direct member of a container is held through a pointer ([]*T, map[string]*T,
+\* []any{&x}); Den ignores wrappers, so the denoted JSON value is unchanged
+PtrKids(v) ==
+  CASE v.t = "arr" -> [v EXCEPT !.e = [i \in DOMAIN v.e |-> IF v.e[i].t = "null" THEN v.e[i] ELSE v.e[i] @@ [w |-> <<"ptr">>]]]
+    [] v.t = "obj" -> [v EXCEPT !.m = [k \in DOMAIN v.m |-> IF v.m[k].t = "null" THEN v.m[k] ELSE v.m[k] @@ [w |-> <<"ptr">>]]]
+    [] OTHER -> v
 WithWraps(vs, ws) == {IF w = <<>> THEN v ELSE v @@ [w |-> w] : v \in vs, w \in ws}
 ====
